@@ -161,6 +161,13 @@ def contigs(case):
     return [CHROM] if not d else ([DECOY, CHROM] if d["first"] else [CHROM, DECOY])
 
 
+def files_of(case):
+    """the input files of the case: only files that hold at least one alignment (whatshap rejects an empty alignment file
+    by design: EmptyAlignmentFileError), in their order; source_id = position in this list"""
+    return sorted({a.get("file", 0) for a in case["alns"]} |
+                  {a.get("file", 0) for a in (case.get("decoy") or {}).get("alns", [])})
+
+
 def write_case_bams(case, wd):
     """One BAM per input file of the case: @RG lines in the case's header order (SM or no SM), RG tag per alignment (or
     none); alignments sorted by contig and start (stable).  Decoy alignments sit on the other contig."""
@@ -170,7 +177,7 @@ def write_case_bams(case, wd):
               "RG": [dict(ID=rg_name(case, g), **({} if sm is None else {"SM": sm_name(case, sm)}))
                      for g, sm in case.get("header", [(0, 0)])]}
     paths = []
-    for f in range(case.get("nfiles", 1)):
+    for f in files_of(case):
         path = os.path.join(wd, f"r{f}.bam")
         for p in (path, path + ".bai"):
             if os.path.exists(p):
@@ -221,7 +228,8 @@ def run_impl(wd, case, refmode, perturb=None):
     fasta = None
     o = opts_of(case)
     sample = case.get("sample", 0)
-    key = {(a.get("file", 0), a.get("qname", a["nid"])): a["nid"] for a in case["alns"]}
+    src = {f: k for k, f in enumerate(files_of(case))}
+    key = {(src[a.get("file", 0)], a.get("qname", a["nid"])): a["nid"] for a in case["alns"]}
     try:
         if refmode:
             with open(fa, "w") as f:
@@ -331,11 +339,15 @@ def gen_case(rng, small=False):
         if p not in used_pos:
             used_pos.add(p)
             listed_extra.append((p, ref[p], rng.choice(["<DEL>", "<DUP>", "<INS>", "<INV>"])))
-    allv = [(v, True) for v, l in zip(events, ev_tags) if l] + [(v, False) for v in listed_extra]
+    # some carried listed deletions are listed as symbolic <DEL> records: the haplotype carries the real deletion
+    alias = {v: (v[0], v[1][0], "<DEL>") for v, l in zip(events, ev_tags)
+             if l and G.kind_of(v) == "del" and not G.is_right_anchored(v) and rng.random() < 0.3}
+    allv = [(alias.get(v, v), True, v) for v, l in zip(events, ev_tags) if l] + [(v, False, v) for v in listed_extra]
     allv.sort(key=lambda x: x[0][0])
-    listed = [v for v, _ in allv]
-    carried = {i for i, (_, c) in enumerate(allv) if c}
-    idx_of = {v: i for i, (v, c) in enumerate(allv) if c}
+    listed = [v for v, _, _ in allv]
+    carried = {i for i, (_, c, _) in enumerate(allv) if c}
+    idx_of = {ev: i for i, (_, c, ev) in enumerate(allv) if c}
+    real = {i: ev for i, (v, c, ev) in enumerate(allv) if c and v is not ev}
     ev = [(v[0], v[1], v[2], idx_of.get(v) if l else None) for v, l in zip(events, ev_tags)]
     cols = G.build_hap(ref, ev)
     # restricted_genotypes as haplotagphase passes them: nothing / all heterozygous / the genotypes of a sample that has
@@ -473,7 +485,7 @@ def gen_case(rng, small=False):
                    for a in alns for b in alns if a is not b and a["nid"] == b["nid"]})
     if gaps and rng.random() < 0.25:
         threshold = max(0, rng.choice(gaps) + rng.choice([-1, 0, 0, 1]))    # at / just below / just above a real gap
-    extra = dict(opts=opts, names=rng.choice(list(NAME_SCHEMES)))
+    extra = dict(opts=opts, names=rng.choice(list(NAME_SCHEMES)), real=real)
     # several input files (MultiBamReader): every read name lives in one file; sometimes two files share a read name
     names = sorted({a["nid"] for a in alns})
     nfiles = min(len(names), rng.choice([1, 1, 1, 2, 3]))
@@ -561,7 +573,7 @@ def finish_case(ref, listed, carried, cols, alns, threshold=100000, header=((0, 
     malformed = sample is not None and (not any(sm == sample for _, sm in header) or any(a.get("rg", 0) is None for a in alns))
     for a in alns:
         if usable(a, o) and in_sample(a, sample) and not malformed:
-            a["t"], a["touch"] = G.truth_of(ref, cols, listed, carried, a, overhang=o["overhang"])
+            a["t"], a["touch"] = G.truth_of(ref, cols, listed, carried, a, overhang=o["overhang"], real=extra.get("real"))
             ncov += len(a["t"])
             by_name.setdefault(a["nid"], []).append(a)
     keys = ("truth_all", "truth_clean", "truth_skip", "must", "must_skip", "must_pair")
@@ -583,7 +595,8 @@ def finish_case(ref, listed, carried, cols, alns, threshold=100000, header=((0, 
         # window, at least one variant.
         supps = [a for a in g if a.get("flag", 0) & 0x800]
         gts = o.get("gt")
-        supp_ok = all(any(x[1] == "clean" and (gts is None or len(gts[i]) > 0) for i, x in a["t"].items()) for a in prims)
+        supp_ok = all(any(x[1] == "clean" and (gts is None or len(gts[i]) > 0) and G.kind_of(listed[i]) != "sym"
+                          for i, x in a["t"].items()) for a in prims)
         for idx, v in enumerate(listed):
             if supps and not supp_ok and any(idx in a["touch"] for a in supps):
                 continue
@@ -596,7 +609,8 @@ def finish_case(ref, listed, carried, cols, alns, threshold=100000, header=((0, 
                 res["truth_all"].setdefault(n, {})[v[0]] = allele
             same = [a for a in touching if strand_ok(a)]
             gt = o.get("gt")
-            findable = gt is None or len(gt[idx]) > 0           # a missing genotype leaves no allele to report
+            # a missing genotype leaves no allele to report; a symbolic record is never reported
+            findable = (gt is None or len(gt[idx]) > 0) and G.kind_of(v) != "sym"
             if wins == {"clean"}:
                 res["truth_clean"].setdefault(n, {})[v[0]] = allele
                 if findable:
@@ -608,7 +622,8 @@ def finish_case(ref, listed, carried, cols, alns, threshold=100000, header=((0, 
                 if same and findable:
                     res["must_skip"].setdefault(n, set()).add(v[0])
     case = dict(ref=ref, listed=listed, carried=sorted(carried), alns=alns, ncov=ncov, threshold=threshold,
-                header=[tuple(h) for h in header], sample=sample, malformed=malformed, **extra)
+                header=[tuple(h) for h in header], sample=sample, malformed=malformed,
+                **{k: v for k, v in extra.items() if k != "real"})
     for k in keys:
         case[k] = [(n, sorted(t.items()) if isinstance(t, dict) else sorted(t)) for n, t in sorted(res[k].items())]
     return case
@@ -691,7 +706,7 @@ if _bits:
 L1_KEYS = ("L1wrong", "L1wrong_skip", "L1overlap", "L1missing", "L1missing_skip", "L1missing_pair", "L1crash")
 # attribution of failing cases to the switchable rules of the model (second Coq round, failing cases only)
 ATTRIB = {"L2orig": "l2_model_with original_rules", "rule0": "not_needed 0", "rule1": "not_needed 1", "rule2": "not_needed 2", "rule3": "not_needed 3",
-          "rule4": "not_needed 4", "rule5": "not_needed 5"}
+          "rule4": "not_needed 4", "rule5": "not_needed 5", "rule6": "not_needed 6"}
 
 # one signature per defect class (= per switchable rule of the model); everything else keeps a generic signature.
 # All five classes are repaired in /repo; a regression (output = the model under original_rules) gets its signature back.
@@ -718,6 +733,10 @@ RULE_SIG = {
               "insertion, or N directly followed by I) queues the insertion variant at that I operation although the left "
               "junction is not covered: a partial insertion does not match and the empty REF allele is reported (q30) for a "
               "variant the read does not overlap and whose ALT allele its haplotype carries (fix 7e88262 exempts I operations)"),
+    "rule6": ("noref:symbolic-alt-read-as-literal-sequence",
+              "without reference a record with a symbolic ALT (<DEL>, <DUP>, ...) enters the CIGAR-based detection with the "
+              "symbol taken as literal text (a 4-base insertion): every spanning read is reported as REF with full quality, "
+              "including reads that carry the real deletion behind a <DEL> record (fixed by b8437fb)"),
 }
 GENERIC = {"L1wrong": "detect:wrong-allele", "L1wrong_skip": "detect:wrong-allele", "L1overlap": "detect:allele-for-non-overlapped-variant",
            "L1missing": "realign:allele-not-found", "L1missing_skip": "realign:allele-not-found",
@@ -803,13 +822,16 @@ def tally_dimensions(ctx, case):
     kinds = [G.kind_of(v) for v in case["listed"]]
     if "sym" in kinds:
         t("symbolic_alt_records", kinds.count("sym"))
+        ncar = sum(1 for i, k in enumerate(kinds) if k == "sym" and i in set(case.get("carried", [])))
+        if ncar:
+            t("symbolic_del_record_with_carried_deletion", ncar)
         first = kinds.index("sym")
         if any(k != "sym" for k in kinds[first + 1:]):
             t("symbolic_alt_record_before_other_variants" + (".with_restriction" if o.get("gt") is not None else ""))
     for g in (o.get("gt") or []):
         t("genotype." + ("missing" if not g else "hom" if len(set(g)) == 1 else "het") + (".triploid" if len(g) == 3 else ""))
     t(f"names.{case.get('names', 'plain')}")
-    t(f"bam_files.{case.get('nfiles', 1)}")
+    t(f"bam_files.{len(files_of(case))}")
     thr = case.get("threshold", 100000)
     for n in {a["nid"] for a in case["alns"]}:
         g = [a for a in case["alns"] if a["nid"] == n]
